@@ -107,7 +107,7 @@ def check_doc(case: Dict[str, Any]) -> Tuple[List[Tuple[str, str]], Dict[str, An
             out.append(('block-not-verbatim', '%s-> block %r is not reproduced character for character; <pre> contents: %s' % (desc, blk, [trunc(p, 200) for p in pres])))
             break
     # (d) fields
-    rows: List[Tuple[str, str, str]] = []  # (current heading, first cell text, whole row text)
+    rows: List[Tuple[str, str, str, Any]] = []  # (current heading, first cell text, whole row text, row element)
     heading = ''
     for table in dom.getElementsByTagName('table'):
         if 'fieldTable' not in table.getAttribute('class'):
@@ -117,7 +117,7 @@ def check_doc(case: Dict[str, Any]) -> Tuple[List[Tuple[str, str]], Dict[str, An
             if 'fieldStart' in tr.getAttribute('class'):
                 heading = _text(tr).strip()
                 continue
-            rows.append((heading, _text(cells[0]) if cells else '', _text(tr)))
+            rows.append((heading, _text(cells[0]) if cells else '', _text(tr), tr))
     all_msgs = ' '.join(m for _s, m, _t in s.msgs)
     for f in doc['fields']:
         toks = f['words']
@@ -140,7 +140,9 @@ def check_doc(case: Dict[str, Any]) -> Tuple[List[Tuple[str, str]], Dict[str, An
                     why = 'tokens %s missing from the documentation of attribute %s (%r)' % (toks, f['arg'], trunc(ahtml, 200))
         else:
             label = ('Unknown Field: ' + f['name']) if f['tag'] == 'unknown' else LABELS[f['tag']]
-            for h, first, whole in rows:
+            if f.get('lit') and fmt != 'epytext':
+                toks = toks + f['lit']['after']
+            for h, first, whole, tr in rows:
                 if h != label:
                     continue
                 if _TOK.findall(whole) and all(t in whole for t in toks):
@@ -157,10 +159,19 @@ def check_doc(case: Dict[str, Any]) -> Tuple[List[Tuple[str, str]], Dict[str, An
                     if f.get('type') and not all(t in first for t in f['type']):
                         why = 'type tokens %s are not next to %s (cell %r)' % (f['type'], f['arg'] or f['tag'], first)
                         break
+                    if f.get('lit') and fmt != 'epytext':
+                        blk = '\n'.join(f['lit']['lines'])
+                        rpres = [_text(p) for p in tr.getElementsByTagName('pre')]
+                        if not any(blk == textwrap.dedent(p).strip('\n') or blk == p.strip('\n') for p in rpres):
+                            why = 'literal block %r of the field is not reproduced character for character; <pre> contents of the row: %r' % (blk, rpres)
+                            break
+                        if any(t in p for p in rpres for t in f['lit']['after']):
+                            why = 'the paragraph after the literal block of the field ended up inside the block: %r' % (rpres,)
+                            break
                     ok = True
                     break
             if not ok and not why:
-                why = 'tokens %s appear in no row under %r; rows: %s' % (toks, label, [(h, trunc(w, 80)) for h, _f, w in rows])
+                why = 'tokens %s appear in no row under %r; rows: %s' % (toks, label, [(h, trunc(w, 80)) for h, _f, w, _t in rows])
         if not ok:
             mentioned = (f['arg'] and ('"%s"' % f['arg'] in all_msgs or "'%s'" % f['arg'] in all_msgs)) or all(t in all_msgs for t in toks)
             if not mentioned:
